@@ -346,9 +346,23 @@ def space(tier):
                 "after_drop": rng.random() < 0.25, "authentic_after": rng.random() < 0.2, "abandoned": rng.random() < 0.2}
         if p["as_extra"] or p["abandoned"] or p["authentic_after"] or p["after_drop"]:
             return p
+        if rng.random() < 0.5:
+            # the frames carried are well-formed appliance frames (start byte, length byte, checksums)
+            from refmodel import codec as _c
+            body = bytes([0xC0]) + rand_bytes(rng, rng.randint(18, 40))
+            fr = _c.frame_build(_c.body_with_crc(body), 0x03)
+            p["reply"] = fr.hex()
+            n = plen(len(fr))
+            if m["kind"] == "multi":
+                # the judged alteration hits the encrypted frame, not its last block
+                m["edits"] = [[40 + rng.randrange(0, max(1, n - 56 - 16)), rng.randrange(1, 256)]]
+            hdr_or_sig = True
+        else:
+            hdr_or_sig = False
         if rng.random() < 0.3:
             # two or three earlier altered replies: header / signature bytes only, or anywhere
-            p["before"] = [{"kind": "multi", "edits": [[rng.choice([rng.randrange(0, 40), n - 1 - rng.randrange(0, 16), rng.randrange(n)]),
+            p["before"] = [{"kind": "multi", "edits": [[rng.choice([rng.randrange(6, 40), n - 1 - rng.randrange(0, 16)] +
+                                                                   ([] if hdr_or_sig else [rng.randrange(n)])),
                                                         rng.randrange(1, 256)]]} for _ in range(rng.randint(2, 3))]
         elif rng.random() < 0.3:
             p["queued_before"] = True
